@@ -51,28 +51,23 @@ func c08NewProxy() (*Proxy, []*c08Backend) {
 	res := NewPreConfigHostResolver()
 	res.AddHostIP("alias.test", "127.0.0.77")
 	res.AddHostIP("hop.test", "127.0.0.78")
-	p := &Proxy{
-		myName:               NewMyName(`svc.test, sos@svc2.test, urn:service:sos, ^.+@emergency\.test$`),
-		localAddress:         "127.0.0.77",
-		preConfigRoute:       route,
-		resolver:             res,
-		items:                make([]*ProxyItem, 0),
-		selfLearnRoute:       NewSelfLearnRoute(),
-		mustRecordRoute:      true,
-		msgChannel:           make(chan *RawMessage, 4),
-		backendChangeChannel: make(chan *BackendChangeEvent, 16),
-		connAcceptedChannel:  make(chan net.Conn),
-		backends:             make(map[string]*BackendWithParent),
-		dialogBasedBackends:  NewDialogBasedBackend(1200),
-	}
-	p.clientTransMgr = NewClientTransportMgr(func(conn net.Conn) {})
+	// the product's own constructor and AddItem (its loop goroutine stays idle:
+	// the pipeline is driven synchronously from the test goroutine)
+	p := NewProxy(`svc.test, sos@svc2.test, urn:service:sos, ^.+@emergency\.test$`, 1200, "127.0.0.77", false, route, res, NewSelfLearnRoute(), true, true)
 	rb := NewRoundRobinBackend()
 	bs := []*c08Backend{{addr: "127.0.0.81:5080"}, {addr: "127.0.0.82:5080"}}
 	for _, b := range bs {
 		rb.AddBackend(b)
-		p.backends[b.addr] = &BackendWithParent{backend: b, parent: rb}
 	}
-	p.items = append(p.items, &ProxyItem{backend: rb, transports: []ServerTransport{&c08Transport{"UDP"}, &c08Transport{"TCP"}}})
+	p.AddItem(&ProxyItem{backend: rb, transports: []ServerTransport{&c08Transport{"UDP"}, &c08Transport{"TCP"}}})
+	// the membership events reach the backend index through the loop goroutine
+	for deadline := time.Now().Add(5 * time.Second); time.Now().Before(deadline); {
+		if len(p.backendChangeChannel) == 0 {
+			break
+		}
+		time.Sleep(50 * time.Microsecond)
+	}
+	time.Sleep(200 * time.Microsecond)
 	return p, bs
 }
 
@@ -371,12 +366,22 @@ func FuzzPipeline(f *testing.F) {
 }
 
 func TestC08(t *testing.T) {
-	V.Rule("unit: sequences of 1-6 inputs per fresh proxy pushed through the synchronous pipeline decode -> learn -> stamp -> register -> consume Route -> pin -> route -> relay (UDP-like and TCP-like arrival, requests and responses): structurally valid generated messages with 1-3 hostile fields (absurd / negative / non-numeric Content-Length, bracket-only / empty / huge Via hosts, hostile Route / From / To / CSeq / start lines, missing mandatory or duplicated singleton headers, thousands of headers / Via entries / parameters, hostile tags, odd Expires), truncations and random byte strings; oracle: no panic, returns within 15 s, TotalAlloc growth per input <= 512*len + 1 MiB (decoding is allowed a large constant factor, not an allocation that ignores how many bytes arrived). lab: the same inputs plus random and oversized bytes against real UDP and TCP listeners; after every batch a sentinel request must still be relayed, a TCP connection that carried undecodable bytes must have been closed, new connections must be served. The native coverage-guided target FuzzPipeline runs in the thorough tier. non-trivial = input that decodes (reaches routing) and contains >= 1 hostile field; distinct by input bytes")
+	V.Rule("unit: sequences of 1-6 inputs (a fresh proxy every 40 sequences) pushed through the synchronous pipeline decode -> learn -> stamp -> register -> consume Route -> pin -> route -> relay (UDP-like and TCP-like arrival, requests and responses): structurally valid generated messages with 1-3 hostile fields (absurd / negative / non-numeric Content-Length, bracket-only / empty / huge Via hosts, hostile Route / From / To / CSeq / start lines, missing mandatory or duplicated singleton headers, thousands of headers / Via entries / parameters, hostile tags, odd Expires), truncations and random byte strings; oracle: no panic, returns within 15 s, TotalAlloc growth per input <= 512*len + 1 MiB (decoding is allowed a large constant factor, not an allocation that ignores how many bytes arrived). lab: the same inputs plus random and oversized bytes against real UDP and TCP listeners; after every batch a sentinel request must still be relayed, a TCP connection that carried undecodable bytes must have been closed, new connections must be served. The native coverage-guided target FuzzPipeline runs in the thorough tier. non-trivial = input that decodes (reaches routing) and contains >= 1 hostile field; distinct by input bytes")
 	V.Assume("egress hygiene: when the product itself computes a non-UDP next hop outside 127/8 for an input, the harness does not let that input reach the relay step (counted as neutralised); UDP sends cannot block")
 	V.Require("bin: process alive and RSS bounded after hostile batch", "decoded with hostile field", "rejected by the decoder", "tcp-like arrival", "udp-like arrival", "response", "lab: sentinel relayed after hostile batch", "lab: garbage TCP connection closed")
 
+	var shared *Proxy
+	sharedUses := 0
 	rcheck(t, "pipeline", V.N(2500, 20000), func(rt *rapid.T) {
-		p, _ := c08NewProxy()
+		// a proxy object costs a goroutine and ~90 KiB of channels that are never
+		// released: a fresh one every 40 sequences (the property is over arbitrary
+		// input sequences, so carrying state over is in the domain)
+		if shared == nil || sharedUses >= 40 {
+			shared, _ = c08NewProxy()
+			sharedUses = 0
+		}
+		sharedUses++
+		p := shared
 		k := rapid.IntRange(1, 6).Draw(rt, "inputs")
 		var seq []string
 		var st c08Stats
@@ -429,6 +434,7 @@ func TestC08(t *testing.T) {
 				V.Class("rejected by the decoder")
 			}
 			if f != "" {
+				shared = nil // never reuse an object that has shown a failure (it may be wedged)
 				failf(rt, "input %d of the sequence %v: %s", i+1, seq, f)
 			}
 		}
